@@ -169,6 +169,20 @@ def check_same(desc, ctx):
             b.spreading_pressure_at(p[0])
         except Exception:  # noqa - reads may be refused (non-monotone data); they must not change the id either way
             pass
+        # reads in other representations (they consult the material's and the adsorbate's properties)
+        for read in (lambda: b.loading(material_basis="volume", material_unit="cm3"),
+                     lambda: b.loading(material_basis="molar", material_unit="mol"),
+                     lambda: b.loading(material_basis="mass", material_unit="kg"),
+                     lambda: b.loading(loading_basis="mass", loading_unit="g"),
+                     lambda: b.loading(loading_basis="volume_liquid", loading_unit="cm3"),
+                     lambda: b.pressure(pressure_mode="relative"),
+                     lambda: b.pressure(pressure_mode="absolute", pressure_unit="Pa"),
+                     lambda: (b.material.density, b.material.molar_mass, b.material.to_dict()),
+                     lambda: b.loading_at(p[0], material_basis="volume", material_unit="cm3")):
+            try:
+                read()
+            except Exception:  # noqa - a refused read must not change the id either
+                pass
         b.to_dict()
         b.to_json()
         str(b)
